@@ -36,6 +36,7 @@ Inductive stage :=
 | SGitFind      (* ci: git branch finder *)
 | SGenerate     (* gen.GenerateStatic *)
 | SCheck        (* checkRules *)
+| SOwners       (* --require-owner: verifyOwners *)
 | SMinSeverity  (* lint: invalid --min-severity *)
 | SFailOn       (* invalid --fail-on *)
 | SOutputs      (* os.Create of the --checkstyle / --json files *)
@@ -53,6 +54,12 @@ Record outcome := {
 
 Definition failed (st : stage) (linted created submitted : bool) : outcome :=
   {| o_code := main_exit_code; o_stage := Some st; o_linted := linted; o_outputs_created := created; o_submitted := submitted |}.
+
+(** An unrecovered Go panic: the runtime prints the stack and exits with status 2.  verifyOwners dereferences
+    [rule.LastKey()] of an entry whose rule failed to parse (known finding C05-require-owner-broken-rule-crash). *)
+Definition panic_exit_code : Z := 2.
+Definition crashed (st : stage) : outcome :=
+  {| o_code := panic_exit_code; o_stage := Some st; o_linted := true; o_outputs_created := false; o_submitted := false |}.
 
 Definition passed (linted created submitted : bool) : outcome :=
   {| o_code := 0; o_stage := None; o_linted := linted; o_outputs_created := created; o_submitted := submitted |}.
@@ -74,6 +81,8 @@ Record lint_in := {
   li_find_ok : bool;
   li_generate_ok : bool;
   li_check_ok : bool;
+  li_require_owner : bool;        (* --require-owner *)
+  li_unowned_broken_rule : bool;  (* some entry (not removed, file readable) holds a rule that FAILED TO PARSE and has no allowed owner *)
   li_min_sev : option string;     (* --min-severity as given, None = omitted *)
   li_fail_on : option string;     (* --fail-on as given *)
   li_outputs_ok : bool;
@@ -88,6 +97,7 @@ Definition action_lint (i : lint_in) (sevs : list Z) : outcome :=
   else if negb (li_find_ok i) then failed SFind false false false
   else if negb (li_generate_ok i) then failed SGenerate false false false
   else if negb (li_check_ok i) then failed SCheck false false false
+  else if li_require_owner i && li_unowned_broken_rule i then crashed SOwners    (* nil dereference in verifyOwners *)
   else match parse_severity (flag_value "lint" "min-severity" (li_min_sev i)) with
   | None => failed SMinSeverity true false false
   | Some m =>
@@ -105,6 +115,8 @@ Definition action_lint (i : lint_in) (sevs : list Z) : outcome :=
 Definition lint_infra_ok (i : lint_in) : bool :=
   action_setup (li_setup i) && negb (Nat.eqb (li_paths i) 0) && li_find_ok i && li_generate_ok i && li_check_ok i &&
   li_outputs_ok i && li_submit_ok i.
+
+Definition lint_crashes (i : lint_in) : bool := li_require_owner i && li_unowned_broken_rule i.
 
 (** * pint ci *)
 
@@ -125,6 +137,8 @@ Record ci_in := {
   ci_git_find_ok : bool;
   ci_generate_ok : bool;
   ci_check_ok : bool;
+  ci_require_owner : bool;
+  ci_unowned_broken_rule : bool;
   ci_outputs_ok : bool;
   ci_reporters_ok : bool;
   ci_fail_on : option string;
@@ -141,6 +155,7 @@ Definition action_ci (i : ci_in) (sevs : list Z) : outcome :=
     else if negb (ci_git_find_ok i) then failed SGitFind false false false
     else if negb (ci_generate_ok i) then failed SGenerate false false false
     else if negb (ci_check_ok i) then failed SCheck false false false
+    else if ci_require_owner i && ci_unowned_broken_rule i then crashed SOwners
     else if negb (ci_outputs_ok i) then failed SOutputs true false false
     else if negb (ci_reporters_ok i) then failed SReporters true true false
     else match parse_severity (flag_value "ci" "fail-on" (ci_fail_on i)) with
@@ -152,6 +167,8 @@ Definition action_ci (i : ci_in) (sevs : list Z) : outcome :=
       else passed true true true
     end
   end.
+
+Definition ci_crashes (i : ci_in) : bool := ci_require_owner i && ci_unowned_broken_rule i.
 
 Definition ci_on_base (i : ci_in) : bool :=
   match ci_current_branch i with
